@@ -260,6 +260,39 @@ def run_cyclic(ctx, n):
         ctx.case(["mpe-cyc", errlib.describe(a)], nontrivial=c07.G_has_cycle(a["G"]))
 
 
+def run_family(ctx):
+    """deterministic cyclic families (errlib.cyclic_families): feasible for every k >= width under the repetition caps of the
+    code as it is, optimum known in closed form"""
+    import flowpaths as fp
+    for fam in errlib.cyclic_families():
+        for k in fam["k_list"]:
+            args = dict(G=fam["G"], flow_attr="flow", k=k, weight_type=fam["weight_type"], solver_options=dict(errlib.SOLVER))
+            rep = {"class": "kMinPathErrorCycles", "family": fam["name"], "args": errlib.describe(args), "closed_form_optimum": str(fam["mpe_opt"])}
+            try:
+                m = fp.kMinPathErrorCycles(**errlib.clean_args(args)); m.solve()
+            except Exception as e:
+                ctx.report(f"kMinPathErrorCycles raised {e!r} on family instance {fam['name']}", rep); continue
+            ctx.case(["mpe-family", fam["name"], k], nontrivial=True)
+            if k is None and m.k != fam["width"]:
+                ctx.report(f"kMinPathErrorCycles(k=None) chose k={m.k} on '{fam['name']}', the covering number is {fam['width']}", rep); continue
+            st = m.solver.get_model_status()
+            if not m.is_solved():
+                if st == "kInfeasible":
+                    ctx.report(f"kMinPathErrorCycles is infeasible on '{fam['name']}' although k={m.k} >= covering number {fam['width']} "
+                               f"and a solution within every repetition cap exists", rep)
+                else:
+                    ctx.count("E2_cyclic_family", "inconclusive:" + str(st))
+                continue
+            so = check_solution(ctx, "kMinPathErrorCycles", args, m, fam["weight_type"] == int, eng="E2_cyclic_family")
+            if so is None:
+                continue
+            if abs(so - float(fam["mpe_opt"])) > 1e-6:
+                rep["solution"] = {x: y for x, y in m.get_solution().items() if not x.startswith("_")}
+                ctx.report(f"kMinPathErrorCycles on '{fam['name']}' (k={m.k}) returns total slack {so}, the optimum is {fam['mpe_opt']}", rep)
+            else:
+                ctx.count("E2_cyclic_family", "optimum_agrees")
+
+
 def cyclic_infeasible(ctx, cls, a, width, k_eff):
     """k >= width but infeasible.  Two known mechanisms, both "repetitions are bounded through the weights":
        (a) repetition cap = largest reachable weight: multiplying all weights by a large constant (which changes nothing
@@ -322,7 +355,7 @@ def run(ctx):
     ctx.rule = ("kMinPathError on random DAGs (<= 5 nodes; covering number <= 4) with arbitrary non-negative weights (int / dyadic float), "
                 "k in {None, width, width+1, width-1}, ignore sets, error_scaling incl. 0 and 1/2, additional starts/ends, subpath constraints, "
                 "solution_weights_superset, path_length_ranges/factors (int type), length_attr, edge and node origin; tiny stream: <= 6 edges, weights <= 4, "
-                "integer type, k <= 3, compared with the exhaustive optimum; cyclic stream: kMinPathErrorCycles on <= 5-node digraphs + the figure-eight. "
+                "integer type, k <= 3, compared with the exhaustive optimum; cyclic stream: kMinPathErrorCycles on <= 5-node digraphs + the figure-eight; deterministic cyclic families with closed-form optimum (chain with a zero-flow SCC 1..4 hops up-/downstream of the heavy edge, fractional perfect decompositions, loops with power-of-two weights). "
                 "non-trivial = LP has more than 12 rows / graph has a cycle")
     for wfun in (witnesses, lambda c: c07.witness_6(c, "kMinPathError")):
         try:
@@ -331,6 +364,7 @@ def run(ctx):
             ctx.report(f"the recorded witness instances raised {e!r}", {"witness": "C08"})
     run_dag(ctx, ctx.budget(170, 5000), tiny=False)
     run_dag(ctx, ctx.budget(160, 5000), tiny=True)
+    run_family(ctx)
     run_cyclic(ctx, ctx.budget(50, 1500))
 
 
